@@ -348,10 +348,11 @@ pub fn run(args: &Args) -> i32 {
         args,
         "exploration",
         "index party (create_index / optimize_indices, current or stale handle) x writers (partial-schema merge_insert, data replacement, compaction, update, merge_insert, delete, append): fixed scenarios in every commit order + random mixes under uniform/PCT/round-robin schedules; non-trivial iff index build and a writer both committed, the final index covers a live fragment and the query battery used it; distinct = hash(ops, read versions, results, released storage-call sequence)",
-        (50, 900),
+        (75, 900),
     )
     .with_min_nontrivial(30);
-    let max_cases = args.tier.pick(2_000, 100_000);
+    // quick: fixed case set per seed; the budget is only a safety cap
+    let max_cases = args.tier.pick(450, 100_000);
     if let Some(c) = args.extra.get("case").and_then(|c| c.parse::<u64>().ok()) {
         let rt = tokio::runtime::Builder::new_current_thread().enable_all().build().unwrap();
         rt.block_on(one_case(&report, seed, c, false));
